@@ -6,10 +6,10 @@ from . import tlc
 CFG = "INIT Init\nNEXT Next\nINVARIANT Emit\n"
 
 
-def generate(module, consts=None, cfg=CFG, workers=4, tag="CASE", seed=None, env=None, timeout=1800, heap="4g"):
+def generate(module, consts=None, cfg=CFG, workers=4, tag="CASE", seed=None, env=None, timeout=1800, heap="4g", silent_states=0):
     res = tlc.run(module, cfg, consts=consts, workers=workers, seed=seed, env=env, timeout=timeout, heap=heap)
     cases = [c[0] for c in res.tagged(tag)]
-    if not cases or len(cases) < res.distinct:
+    if not cases or len(cases) < res.distinct - silent_states:
         raise MachineryError("%s: parsed %d cases, TLC reports %d distinct states" % (module, len(cases), res.distinct))
     return cases, res
 
